@@ -1,14 +1,17 @@
 #!/bin/sh
 # Applies every seeded change in turn, runs the check(s) of its property, and reports whether the
-# change is detected (exit 1 with a VIOLATION line). /repo is restored after each.
+# change is detected (exit 1 with a VIOLATION line). The tree is restored after each.
+# With WT=<scratch worktree of /repo> the changes are applied there and /repo stays untouched
+# (re-run the checks on /repo afterwards: the evidence files describe the last tree checked).
+tree=${WT:-/repo}
 for d in /verif/seeded/*/; do
   name=$(basename $d)
   id=${name%%-*}
-  if [ -n "$(git -C /repo status --porcelain)" ]; then echo "/repo not clean"; exit 2; fi
-  git -C /repo apply $d/patch.diff 2>/dev/null || { echo "$name: patch does not apply"; continue; }
-  /verif/bin/vcheck $id ${TIER:-quick} > /tmp/allseeds.log 2>&1
+  if [ -n "$(git -C $tree status --porcelain)" ]; then echo "$tree not clean"; exit 2; fi
+  git -C $tree apply $d/patch.diff 2>/dev/null || { echo "$name: patch does not apply"; continue; }
+  VERIF_REPO_DIR=$tree /verif/bin/vcheck $id ${TIER:-quick} > /tmp/allseeds.log 2>&1
   rc=$?
-  git -C /repo checkout -- . ; git -C /repo clean -fdq -- . 2>/dev/null
+  git -C $tree checkout -- . ; git -C $tree clean -fdq -- . 2>/dev/null
   echo "$name: rc=$rc $(grep -c '^VIOLATION' /tmp/allseeds.log) violation line(s); first: $(grep -A1 '^VIOLATION' /tmp/allseeds.log | sed -n 2p | cut -c1-110)"
 done
 rm -f /tmp/allseeds.log
